@@ -230,6 +230,31 @@ func (P *Program) registerGin() {
 		return nil
 	})
 
+	// ---- centrifuge node: only the connect-handshake handler is modelled
+	cfNode := "(*github.com/centrifugal/centrifuge.Node)."
+	P.reg(cfNode+"OnConnecting", func(fr *frame, args []value) value {
+		fr.in.extra[fmt.Sprintf("cfconnecting:%p", args[0].(*value))] = args[1]
+		return nil
+	})
+	P.reg(cfNode+"OnConnect", func(fr *frame, args []value) value { return nil })
+	VHWS := RepoModule + "/internal/zzverif/vhws"
+	P.reg(VHWS+".NewNode", func(fr *frame, args []value) value {
+		var cell value = &opaque{kind: "centrifuge.Node"}
+		return &cell
+	})
+	P.reg(VHWS+".Connecting", func(fr *frame, args []value) value {
+		in := fr.in
+		h := in.extra[fmt.Sprintf("cfconnecting:%p", args[0].(*value))]
+		if h == nil {
+			panic(unsupported{"no OnConnecting handler registered on this node"})
+		}
+		evT := in.P.namedType("github.com/centrifugal/centrifuge.ConnectEvent")
+		ev := in.zero(evT).(structure)
+		ev[structField(evT, "Token")] = args[1]
+		res := in.call(fr, 0, h, []value{in.call(fr, 0, &native{fn: in.P.intrinsics["context.Background"]}, nil), ev}).(tuple)
+		return in.boolv(res[1].(iface).t == nil)
+	})
+
 	// ---- vhgin
 	P.reg(VHGIN+".NewEngine", func(fr *frame, args []value) value {
 		in := fr.in
